@@ -218,3 +218,11 @@ Theorem C18_unwrap_nonvacuous :
   snd (unwrap_scan id_hash 0 env (tx_hash id_hash ex_legacy)) = option_map (fun m => (1%nat, m)) (unwrap id_hash env (tx_hash id_hash ex_legacy)).
 Proof. exact ex_unwrap_envelope. Qed.
 Print Assumptions C18_unwrap_nonvacuous.
+
+(** The correspondence run evaluates a memoised form of the model's check (the
+    Ethereum hash of a pool member is computed once per case): it is the plain
+    check, built on [unwrap_scan], on every input. *)
+Theorem C18_unwrap_check_memo_is_check :
+  forall c : unwrap_case, check_unwrap_case_memo c = check_unwrap_case c.
+Proof. exact check_unwrap_case_memo_eq. Qed.
+Print Assumptions C18_unwrap_check_memo_is_check.
